@@ -597,7 +597,42 @@ def exits_explicit(ctx):
 
 def _disconnect_success_edge(ctx, body, bb):
     """True if bb lies on the edge where disconnect.reason == Success, False on the != edge, None if undetermined."""
-    for (d, s_) in dominating_edges(body, bb):
+    r = _disconnect_success_edge1(ctx, body, bb, dominating_edges(body, bb))
+    if r is not None or not body.fn.get("flat"):
+        return r
+    # the test does not dominate the block (the arm left a note -- `Followup::Exit` -- that is acted upon after the arms
+    # joined): for a DISCONNECT, from which side of the test can the block run?
+    try:
+        from spec import variant_specs
+        sw = match_arms(body, RXPACKET)[0]
+        sp = variant_specs(ctx, body, RXPACKET, sw).get("Disconnect")
+    except AnchorLost:
+        sp = None
+    if sp is None or bb not in sp.reach:
+        return None
+    verdicts = set()
+    for d in sorted(sp.reach):
+        if len(set(body.succ(d))) < 2:
+            continue
+        sides = {}
+        for s_ in set(body.succ(d)):
+            v = _disconnect_success_edge1(ctx, body, None, [(d, s_)])
+            if v is not None:
+                sides[s_] = v
+        if len(sides) < 2:
+            continue
+        for s_, v in sides.items():
+            if bb in sp.reach_from(d, s_):
+                verdicts.add(v)
+    if verdicts == {True}:
+        return True
+    if False in verdicts:
+        return False
+    return None
+
+
+def _disconnect_success_edge1(ctx, body, bb, edges):
+    for (d, s_) in edges:
         c = Cond(body, d)
         if c.kind == "call" and c.callee == "eq":
             at = set()
